@@ -1,8 +1,55 @@
-From V Require Import Common.Base C01.Utf C01.Quote C01.SpecLiteral.
-(* non-vacuity / sanity: concrete values *)
+From V Require Import Common.Base C01.Utf C01.Quote C01.SpecLiteral C01.QuoteProofs.
+From V Require Import C01.Num C01.SpecNumeric C01.NumProofs.
+(* non-vacuity / sanity: concrete non-trivial values meeting each theorem's hypotheses *)
+
+Definition ex_units := [104; 0; 49; 39; 34; 96; 36; 123; 60; 47; 83; 99; 114; 105; 112; 116; 8232; 55357; 56832; 55357; 233; 10; 13].
+Example ex_units_u16 : all_u16 ex_units.
+Proof. unfold all_u16, ex_units. repeat constructor; lia. Qed.
+
 Example quoted_ex :
-  print_quoted (mkQ false true true 0 false true) true false []
-    [104; 0; 49; 39; 34; 96; 36; 123; 60; 47; 83; 99; 114; 105; 112; 116; 8232; 55357; 56832; 55357; 233; 10; 13]
+  print_quoted (mkQ false true true 0 false true) true false [] ex_units
   = [34; 104; 92; 120; 48; 48; 49; 39; 92; 34; 96; 36; 123; 60; 92; 47; 83; 99; 114; 105; 112; 116;
      92; 117; 50; 48; 50; 56; 240; 159; 152; 128; 92; 117; 68; 56; 51; 68; 195; 169; 92; 110; 92; 114; 34].
+Proof. vm_compute. reflexivity. Qed.
+
+(* ASCII only, no \u{...}, line limit 10, templates unsupported: wraps and escapes *)
+Example quoted_ascii_ex :
+  literal_value (print_quoted (mkQ true false true 10 false false) true false [1; 2; 3] ex_units) = Some ex_units
+  /\ forallb (fun b => b <? 128) (print_quoted (mkQ true false true 10 false false) true false [1; 2; 3] ex_units) = true.
+Proof. vm_compute. split; reflexivity. Qed.
+
+(* the quote chooser picks a backtick, and `${` is escaped *)
+Example backtick_ex :
+  print_quoted (mkQ false true true 0 false true) true false [] [34; 34; 39; 39; 36; 123]
+  = [96; 34; 34; 39; 39; 92; 36; 123; 96].
+Proof. vm_compute. reflexivity. Qed.
+
+(* the specification rejects what it must *)
+Example spec_rejects :
+  map literal_value [[39; 92; 49; 39]; [39; 92; 48; 49; 39]; [34; 10; 34]; [96; 36; 123; 96]; [39; 92; 117; 123; 49; 49; 48; 48; 48; 48; 125; 39]; [39; 237; 160; 128; 39]]
+  = [None; None; None; None; None; None].
+Proof. vm_compute. reflexivity. Qed.
+Example spec_accepts :
+  map literal_value [[39; 92; 48; 39]; [96; 13; 10; 96]; [34; 226; 128; 168; 34]; [39; 92; 13; 10; 97; 39]; [96; 36; 36; 96]]
+  = [Some [0]; Some [10]; Some [8232]; Some [97]; Some [36; 36]].
+Proof. vm_compute. reflexivity. Qed.
+
+(* numbers *)
+Example shorten_ex :
+  map (shorten true) [[49; 101; 43; 50; 49]; [48; 46; 48; 48; 48; 49]; [48; 46; 53]; [49; 46; 50; 101; 43; 50; 52]; [49; 48; 48; 48]; [49; 46; 53; 101; 45; 48; 55]; [49; 46; 50; 101; 43; 48; 49]]
+  = [[49; 101; 50; 49]; [49; 101; 45; 52]; [46; 53]; [49; 50; 101; 50; 51]; [49; 101; 51]; [49; 53; 101; 45; 56]; [49; 50]].
+Proof. vm_compute. reflexivity. Qed.
+
+Example form_dot_exp_ex : form_dot_exp [49; 46; 50; 101; 43; 50; 52].
+Proof.
+  exists [49], [50], SgPlus, [50; 52]. repeat split; try reflexivity; try discriminate;
+    try (repeat constructor; lia); vm_compute; congruence.
+Qed.
+Example form_int_ex : form_int [49; 48; 48; 48].
+Proof. repeat split; try reflexivity; try discriminate; try (repeat constructor; lia). Qed.
+
+(* 1234567890123456768 with minify-whitespace becomes hex (18 bytes instead of 19) *)
+Example hex_ex :
+  printNonNegativeFloat true 4877717327635671425 [49; 46; 50; 51; 52; 53; 54; 55; 56; 57; 48; 49; 50; 51; 52; 53; 54; 56; 101; 43; 49; 56]
+  = ([48; 120; 49; 49; 50; 50; 49; 48; 102; 52; 55; 100; 101; 57; 56; 49; 48; 48], false).
 Proof. vm_compute. reflexivity. Qed.
